@@ -141,29 +141,100 @@ def g_commute(ctx, rng, i):
     H = [(g.Line if dim == 2 else g.Plane)(v) for v in _pts(rng, n, 3, mode)]
 
     def rec(monitor, what, lhs, rhs, ops):
-        ok, why = _proj_same(lhs, rhs, tol)
+        # both sides are evaluated here: a side that raises while the other one returns is a violation, two raising sides are a
+        # degenerate configuration (judged by C02)
+        vals, excs = [], []
+        for side in (lhs, rhs):
+            try:
+                vals.append(side())
+                excs.append(None)
+            except Exception as e:  # noqa: BLE001
+                vals.append(None)
+                excs.append(e)
+        if excs[0] is not None and excs[1] is not None:
+            ctx.skip(monitor, "both sides raise (degenerate configuration)")
+            return
+        if excs[0] is not None or excs[1] is not None:
+            e = excs[0] or excs[1]
+            ctx.judge(monitor, False, ops, what=f"{what}: the {'left' if excs[0] is not None else 'right'} side raises {type(e).__name__}: {str(e)[:80]}, the other side returns",
+                      op=what, nontrivial=nt, feat={"dim": dim, "tkind": kind, "exc": type(e).__name__})
+            return
+        ok, why = _proj_same(vals[0], vals[1], tol)
         ctx.judge(monitor, ok, ops, what=f"{what}: {why}", op=what, nontrivial=nt, feat={"dim": dim, "tkind": kind})
 
     # join / meet commute with t
-    rec("commute.join", "t*join(p,q) vs join(t*p,t*q)", t * g.join(P[0], P[1]), g.join(t * P[0], t * P[1]), [t, P[0], P[1]])
-    rec("commute.meet", "t*meet(g,h) vs meet(t*g,t*h)", t * g.meet(H[0], H[1]), g.meet(t * H[0], t * H[1]), [t, H[0], H[1]])
+    rec("commute.join", "t*join(p,q) vs join(t*p,t*q)", lambda: t * g.join(P[0], P[1]), lambda: g.join(t * P[0], t * P[1]), [t, P[0], P[1]])
+    rec("commute.meet", "t*meet(g,h) vs meet(t*g,t*h)", lambda: t * g.meet(H[0], H[1]), lambda: g.meet(t * H[0], t * H[1]), [t, H[0], H[1]])
     if dim == 3:
-        rec("commute.join", "t*join(p,q,r)", t * g.join(P[0], P[1], P[2]), g.join(t * P[0], t * P[1], t * P[2]), [t, P[0], P[1], P[2]])
-        rec("commute.meet", "t*meet(e,f,h)", t * g.meet(H[0], H[1], H[2]), g.meet(t * H[0], t * H[1], t * H[2]), [t, *H])
+        rec("commute.join", "t*join(p,q,r)", lambda: t * g.join(P[0], P[1], P[2]), lambda: g.join(t * P[0], t * P[1], t * P[2]), [t, P[0], P[1], P[2]])
+        rec("commute.meet", "t*meet(e,f,h)", lambda: t * g.meet(H[0], H[1], H[2]), lambda: g.meet(t * H[0], t * H[1], t * H[2]), [t, *H])
         l = g.join(P[0], P[1])
         m = g.join(P[0], P[2])
-        rec("commute.join", "t*join(l,p)", t * g.join(l, P[2]), g.join(t * l, t * P[2]), [t, l, P[2]])
+        rec("commute.join", "t*join(l,p)", lambda: t * g.join(l, P[2]), lambda: g.join(t * l, t * P[2]), [t, l, P[2]])
         if any(abs(float(np.dot(np.asarray(P[j].array, dtype=float), np.asarray(H[0].array, dtype=float)))) > 1e-6 for j in (0, 1)):
             # (a line lying in the plane has no meet: the library legitimately raises, judged by C02)
-            rec("commute.meet", "t*meet(l,e)", t * g.meet(l, H[0]), g.meet(t * l, t * H[0]), [t, l, H[0]])
-        rec("commute.meet", "t*meet(l,m) coplanar lines", t * g.meet(l, m), g.meet(t * l, t * m), [t, l, m])
-        rec("commute.join", "t*join(l,m) coplanar lines", t * g.join(l, m), g.join(t * l, t * m), [t, l, m])
-        k = g.meet(H[0], H[1])
-        rec("commute.meet", "t*meet(e,f) -> line", t * k, g.meet(t * H[0], t * H[1]), [t, H[0], H[1]])
+            rec("commute.meet", "t*meet(l,e)", lambda: t * g.meet(l, H[0]), lambda: g.meet(t * l, t * H[0]), [t, l, H[0]])
+        rec("commute.meet", "t*meet(l,m) coplanar lines", lambda: t * g.meet(l, m), lambda: g.meet(t * l, t * m), [t, l, m])
+        rec("commute.join", "t*join(l,m) coplanar lines", lambda: t * g.join(l, m), lambda: g.join(t * l, t * m), [t, l, m])
+        rec("commute.meet", "t*meet(e,f) -> line", lambda: t * g.meet(H[0], H[1]), lambda: g.meet(t * H[0], t * H[1]), [t, H[0], H[1]])
+        # two lines through a common point in special position (coordinates adding up to zero, on an axis, at infinity)
+        if mode == "int":
+            cp = np.array(gen.pick(rng, [[1, -2, 0, 1], [-1, 0, 0, 1], [2, -4, 1, 1], [1, -1, 0, 0], [0, 0, 0, 1], [3, 0, 0, 1], [1, 1, -2, 0]]))
+            for _ in range(20):
+                d1, d2 = np.append(gen.nonzero_vec(rng, 3, 3), 0), np.append(gen.nonzero_vec(rng, 3, 3), 0)
+                if X.rank([X.vec(cp), X.vec(d1), X.vec(d2)]) == 3:
+                    break
+            else:
+                d1 = None
+            if d1 is not None:
+                cpt = g.Point(cp)
+                q1 = cp + d1 if cp[3] else cp + np.array([0, 0, 0, 1]) + 0 * d1
+                q2 = cp + d2 if cp[3] else cp + np.array([1, 2, 3, 1])
+                try:
+                    l1, l2 = g.join(cpt, g.Point(q1)), g.join(cpt, g.Point(q2))
+                except Exception:
+                    l1 = None
+                if l1 is not None and X.rank([X.vec(cp), X.vec(q1), X.vec(q2)]) == 3:
+                    rec("commute.join", "t*join(l,m) lines through a point in special position", lambda: t * g.join(l1, l2), lambda: g.join(t * l1, t * l2), [t, l1, l2])
+                    rec("commute.meet", "t*meet(l,m) lines through a point in special position", lambda: t * g.meet(l1, l2), lambda: g.meet(t * l1, t * l2), [t, l1, l2])
+    # integer matrices with a large determinant on objects with decimal coordinates (the scale of the matrix must cancel between the
+    # action on points and the action on lines / planes)
+    if i % 3 == 0:
+        for _ in range(30):
+            Mi = gen.coords(rng, (n, n), 9, "int")
+            if abs(np.linalg.det(Mi)) > (300 if dim == 2 else 3000) and np.linalg.cond(Mi) < 40:
+                break
+        else:
+            Mi = None
+        if Mi is not None:
+            ti = g.Transformation(Mi.astype(np.int64))
+            dp = [np.append(gen.coords(rng, (dim,), 40, "int") / 10.0, 1.0) for _ in range(4)]
+            if np.linalg.matrix_rank(np.stack(dp[:n])) == n and np.linalg.cond(np.stack(dp[:n])) < 1e3:
+                D = [g.Point(v) for v in dp]
+                ci = float(np.linalg.cond(Mi))
+                l_ = g.join(D[0], D[1])
+                on = g.Point(0.3 * dp[0] + 0.7 * dp[1])
+
+                def inc(what, f_):
+                    try:
+                        ok = bool(np.all(f_()))
+                        ctx.judge("incidence", ok, [ti, *D[:3]], what=f"integer matrix with determinant {np.linalg.det(Mi):.0f}: {what}", op="contains (integer matrix)", nontrivial=True,
+                                  feat={"dim": dim, "tkind": "bigdet"})
+                    except Exception as e:  # noqa: BLE001
+                        ctx.judge("incidence", False, [ti, *D[:3]], what=f"integer matrix with determinant {np.linalg.det(Mi):.0f}: {what}: raised {type(e).__name__}: {str(e)[:60]}",
+                                  op="contains (integer matrix)", nontrivial=True, feat={"dim": dim, "tkind": "bigdet", "exc": type(e).__name__})
+
+                inc("the image of a line does not contain the image of one of its points", lambda: (ti * l_).contains(ti * on))
+                if dim == 3:
+                    e_ = g.join(D[0], D[1], D[2])
+                    m_ = g.join(D[0], D[2])
+                    inc("the image of a plane does not contain the image of one of its lines", lambda: (ti * e_).contains(ti * l_))
+                    inc("the images of two meeting lines do not meet in the image of their common point", lambda: g.meet(ti * l_, ti * m_) == ti * D[0])
+                    inc("the images of two meeting lines do not span the image of their plane", lambda: g.join(ti * l_, ti * m_) == ti * e_)
     # collections
     pc = g.PointCollection(np.stack([p.array for p in P[:3]]))
     qc = g.PointCollection(np.stack([p.array for p in (P[1], P[2], P[3])]))
-    rec("commute.join", "t*join(collections)", t * g.join(pc, qc), g.join(t * pc, t * qc), [t, pc, qc])
+    rec("commute.join", "t*join(collections)", lambda: t * g.join(pc, qc), lambda: g.join(t * pc, t * qc), [t, pc, qc])
 
     # complex projective maps (Gaussian integer matrices): the same commutation rules
     if i % 4 == 1:
